@@ -409,6 +409,11 @@ func main() {
 	_, tsErr := exec.LookPath("taskset")
 	sum.Extra["taskset_available"] = tsErr == nil
 
+	// outcome independent of what the runtime / a reused Environment executed before
+	for _, vm := range []bool{false, true} {
+		prefixExperiment(sum, *seed, *tier, vm)
+	}
+
 	// runtime.SortContractUpdates: the result does not depend on the input order
 	checkSortContractUpdates(sum, lib.NewRng(*seed))
 
